@@ -37,7 +37,7 @@ pub fn stream_name(sid: u64) -> String { format!("stream-{sid}") }
 fn payload(eid: u64, len: usize, rnd: bool) -> Vec<u8> {
     if rnd {
         let mut r = common::Rng::new(eid ^ 0xABCD);
-        (0..len).map(|_| (r.next() as u8) | 1).collect()
+        (0..len).map(|_| r.next() as u8).collect()
     } else {
         (0..len).map(|i| b'a' + ((i / 7) % 3) as u8).collect()
     }
@@ -60,6 +60,8 @@ pub struct World {
     by_uuid: HashMap<Uuid, u64>,
     stream_by_name: HashMap<String, u64>,
     last_append: Option<(u16, Vec<u64>, bool)>, // bucket, event offsets, has commit
+    fill_eid: u64,
+    fill_target_done: bool,
     pub sync_ms: u64,
     pub max_append_ms: u128,
 }
@@ -69,7 +71,7 @@ const GOOD_TS: u64 = 1_700_000_000_000_000_000;
 impl World {
     pub fn new(h: Hist) -> World {
         let root = tempfile::Builder::new().prefix("sv-store-").tempdir().unwrap();
-        World { h, root, gen_: 0, db: None, stored: HashMap::new(), by_uuid: HashMap::new(), stream_by_name: HashMap::new(), last_append: None, sync_ms: std::env::var("SV_SYNC_MS").ok().and_then(|x| x.parse().ok()).unwrap_or(2), max_append_ms: 0 }
+        World { h, root, gen_: 0, db: None, stored: HashMap::new(), by_uuid: HashMap::new(), stream_by_name: HashMap::new(), last_append: None, fill_eid: 1_000_000, fill_target_done: false, sync_ms: std::env::var("SV_SYNC_MS").ok().and_then(|x| x.parse().ok()).unwrap_or(2), max_append_ms: 0 }
     }
     pub fn keep(&mut self) -> PathBuf { let p = self.root.path().to_path_buf(); let t = std::mem::replace(&mut self.root, tempfile::tempdir().unwrap()); let _ = t.keep(); p }
     fn dir(&self) -> PathBuf { self.root.path().join(format!("db{}", self.gen_)) }
@@ -144,8 +146,28 @@ impl World {
     pub async fn run(&mut self) -> Vec<String> {
         let mut out = Vec::new();
         if let Err(e) = self.open() { return vec![format!("open-err:{e}")]; }
-        let ops = self.h.ops.clone();
-        for (i, op) in ops.iter().enumerate() {
+        let mut i = 0usize;
+        while i < self.h.ops.len() {
+            if let Op::FillWindow { k, delta, len } = self.h.ops[i].clone() {
+                // expand into plain appends (the case line is rewritten accordingly)
+                let mut pos = i;
+                self.h.ops.remove(i);
+                let mut guard = 0;
+                loop {
+                    guard += 1;
+                    let next = self.plan_fill(k, delta, len);
+                    let (op, last) = match next { Some(x) if guard < 2000 => x, _ => break };
+                    self.h.ops.insert(pos, op.clone());
+                    let r = self.step_caught(pos, &op).await;
+                    out.push(r);
+                    pos += 1;
+                    if last || self.db.is_none() { break; }
+                }
+                i = pos;
+                continue;
+            }
+            let op = self.h.ops[i].clone();
+            let op = &op;
             let r = {
                 use futures::FutureExt;
                 match std::panic::AssertUnwindSafe(self.step(i, op)).catch_unwind().await {
@@ -155,9 +177,62 @@ impl World {
             };
             out.push(r);
             if self.db.is_none() { break; }
+            i += 1;
         }
         self.close().await;
         out
+    }
+
+    async fn step_caught(&mut self, i: usize, op: &Op) -> String {
+        use futures::FutureExt;
+        match std::panic::AssertUnwindSafe(self.step(i, op)).catch_unwind().await {
+            Ok(r) => r,
+            Err(_) => "PANIC".to_string(),
+        }
+    }
+
+    /// end offset of the last record in the live segment of `bucket`
+    fn live_end(&self, bucket: u16) -> Option<usize> {
+        let bytes = std::fs::read(self.live_path(bucket)?).ok()?;
+        let mut o = sierradb::bucket::segment::SEGMENT_HEADER_SIZE;
+        while o + 8 <= bytes.len() {
+            let len = u32::from_le_bytes(bytes[o..o + 4].try_into().unwrap()) & 0x7FFF_FFFF;
+            if len == 0 { break; }
+            o += 8 + len as usize;
+        }
+        Some(o)
+    }
+
+    /// next append of a FillWindow expansion: (op, is_the_target_append)
+    fn plan_fill(&mut self, k: usize, delta: i64, len: usize) -> Option<(Op, bool)> {
+        use sierradb::bucket::segment::EVENT_HEADER_SIZE;
+        let bucket = self.h.keys[k] % self.h.buckets;
+        let sid = k as u64;
+        let eid = self.fill_eid; // next id to use
+        let base = |eid: u64| EVENT_HEADER_SIZE + stream_name(sid).len() + 3 + format!("m{eid}").len();
+        let wo = self.live_end(bucket)? as i64;
+        // the target event is appended with the id that follows all fillers; its metadata length is that of `eid`
+        // as long as the number of digits does not change, which the 7-digit fill ids guarantee
+        let target_est = (base(eid) + len) as i64;
+        let want_wo = self.h.seg as i64 - target_est - delta;
+        let need = want_wo - wo;
+        if std::env::var("SV_DEBUG").is_ok() { eprintln!("plan_fill: wo={wo} want={want_wo} need={need} target_est={target_est}"); }
+        let mk = |eid: u64, plen: usize, rnd: bool| Op::Append { k, xseq: Xv::Any, roll: false, big: false,
+            evs: vec![crate::hist::Ev { eid, sid, xv: Xv::Any, len: plen, rnd, ts_ok: true }] };
+        self.fill_eid += 1;
+        let (tmin, tmax) = (base(eid) as i64, base(eid) as i64 + 18);
+        if need <= 0 || need < tmin {
+            // window reached (or unreachable): append the target
+            return Some((mk(eid, len, true), true));
+        }
+        if need > 3000 {
+            let plen = ((need - 2500).min(40_000) as usize).max(200);
+            return Some((mk(eid, plen, true), false));
+        }
+        // tiny uncompressed records of exactly predictable size: base + payload, payload 0..18
+        let kk = (need + tmax - 1) / tmax;
+        let size = (need / kk).clamp(tmin, tmax);
+        Some((mk(eid, (size - tmin) as usize, false), false))
     }
 
     async fn step(&mut self, i: usize, op: &Op) -> String {
@@ -279,6 +354,7 @@ impl World {
                 self.last_append = None;
                 match self.open() { Ok(()) => "ok".into(), Err(e) => format!("err {e}") }
             }
+            Op::FillWindow { .. } => "skip".into(),
             Op::Crash { keep, extra } => {
                 drop(db);
                 let Some((bucket, offsets, has_commit)) = self.last_append.take() else {
